@@ -56,7 +56,9 @@ func (e *Env) heapGet(st *State, name, sort string) string {
 		return t
 	}
 	base := st.base
-	if base == "" {
+	if base == "" || strings.HasPrefix(name, "T!") || e.cellArray[name] {
+		// ghost traces and cells of locals/package variables are never changed implicitly
+		// (by calls into unknown code): their initial version is the entry version
 		base = "0"
 	}
 	init := q(name + "@" + base)
@@ -173,6 +175,9 @@ func (e *Env) locName(p *Ptr, l Leaf) (string, string) {
 	case "obj":
 		n := "F!" + typeKey(p.Root) + "!" + prefix + l.Path
 		e.leafTypes[n] = l.Typ
+		if _, isStruct := p.Root.Underlying().(*types.Struct); !isStruct {
+			e.cellArray[n] = true
+		}
 		return n, heapSort("F", l.Sort, "")
 	case "elem":
 		n := "E!" + typeKey(p.Root) + "!" + prefix + l.Path
@@ -542,6 +547,21 @@ func (e *Env) mergeStates(sts []*State) *State {
 			names[n] = true
 		}
 	}
+	// states from different havoc epochs: materialise every known array and continue in a
+	// fresh epoch (arrays first used later are unconstrained)
+	diffBase := false
+	for _, s := range sts {
+		if s.base != sts[0].base {
+			diffBase = true
+		}
+	}
+	if diffBase {
+		for n := range e.heapSorts {
+			names[n] = true
+		}
+		e.epoch++
+		out.base = fmt.Sprintf("e%d", e.epoch)
+	}
 	sorted := make([]string, 0, len(names))
 	for n := range names {
 		sorted = append(sorted, n)
@@ -572,3 +592,84 @@ func (e *Env) mergeValues(pcs []string, vs []Value) Value {
 }
 
 var _ = fmt.Sprintf
+
+// ---------------------------------------------------------------------------
+// ghost traces: per channel a length and one array per record component
+
+func (e *Env) traceLenTerm(st *State, ch string) string {
+	arr := e.heapGet(st, "T!"+ch+"!len", "(Array Int Int)")
+	if e.quantDepth == 0 && !e.declared["tlen0:"+ch] {
+		e.declared["tlen0:"+ch] = true
+		e.sess.Cmd("(assert (<= 0 (select " + q("T!"+ch+"!len@0") + " 0)))")
+	}
+	return mkSelect(arr, "0")
+}
+
+func (e *Env) traceAt(st *State, ch string, k int, pos string) string {
+	arr := e.heapGet(st, fmt.Sprintf("T!%s!%d", ch, k), "(Array Int Int)")
+	return mkSelect(arr, pos)
+}
+
+// emit appends a record to a trace channel.
+func (e *Env) emit(st *State, ch string, comps []string) {
+	n := e.traceLenTerm(st, ch)
+	n = e.maybeNameForce(n, sInt, "tlen")
+	for k, c := range comps {
+		name := fmt.Sprintf("T!%s!%d", ch, k)
+		arr := e.heapGet(st, name, "(Array Int Int)")
+		e.heapSet(st, name, "(Array Int Int)", e.maybeName(mkStore(arr, n, c), "(Array Int Int)"))
+		e.noteWrite(name, n)
+	}
+	ln := "T!" + ch + "!len"
+	arr := e.heapGet(st, ln, "(Array Int Int)")
+	e.heapSet(st, ln, "(Array Int Int)", e.maybeName(mkStore(arr, "0", sx("+", n, "1")), "(Array Int Int)"))
+	e.noteWrite(ln, "0")
+}
+
+// emitFor evaluates and appends the records of an item's emits clauses.
+func (e *Env) emitFor(it *Item, ctx *SpecCtx, st *State) {
+	for _, em := range it.Emits {
+		var comps []string
+		for _, a := range em.Args {
+			v := ctx.eval(a)
+			for i, t := range e.flatten(v) {
+				l := e.leavesOf(v.vtype())
+				if i < len(l) && l[i].Sort == sBool {
+					t = mkIte(t, "1", "0")
+				}
+				comps = append(comps, t)
+			}
+		}
+		e.emit(st, em.Ch, comps)
+	}
+}
+
+// havocAllBut models a call into unknown code: every heap array becomes arbitrary, except
+// the fields of the struct types listed as preserved (and ghost traces).
+func (e *Env) havocAllBut(st *State, preserved []types.Type) {
+	keep := map[string]string{}
+	for _, t := range preserved {
+		p := &Ptr{Kind: "obj", Root: t}
+		for _, l := range e.leavesOf(t) {
+			n, srt := e.locName(p, l)
+			keep[n] = e.heapGet(st, n, srt)
+		}
+	}
+	for n := range e.heapSorts {
+		// ghost traces, and cells of non-struct type (local variables whose address is taken,
+		// package-level variables): unknown code cannot reach the former and is assumed not to
+		// reassign the latter
+		if strings.HasPrefix(n, "T!") || (strings.HasPrefix(n, "F!") && e.cellArray[n]) {
+			keep[n] = e.heapGet(st, n, e.heapSorts[n])
+		}
+	}
+	e.epoch++
+	st.base = fmt.Sprintf("e%d", e.epoch)
+	st.heap = keep
+	nx := e.fresh("next", sInt)
+	e.assume(sx("<=", st.next, nx))
+	st.next = nx
+	if e.writeLog != nil {
+		e.writeLog["*callee-modifies*"] = append(e.writeLog["*callee-modifies*"], "unknown code")
+	}
+}
